@@ -40,6 +40,14 @@ CPPPreprocessor::InputFile::~InputFile() {}
 //@extract src/cppparser/cppPreprocessor.cxx CPPPreprocessor::CPPPreprocessor
 //@extract src/cppparser/cppPreprocessor.cxx CPPPreprocessor::push_expansion
 //@extract src/cppparser/cppPreprocessor.cxx CPPPreprocessor::should_ignore_manifest
+// expand_manifest: its callees other than push_expansion are replaced by their contracts
+void CPPPreprocessor::extract_manifest_args(const std::string &name, int num_args, int va_arg, vector_string &args) {}
+std::string CPPManifest::expand(const vector_string &args, bool expand_undefined, const Ignores &ignores) const { std::string r; r += 'e'; return r; }
+static int g_next_token_calls;
+CPPToken::CPPToken(int token, int line_number, int col_number, const CPPFile &file, const std::string &str, const YYSTYPE &lval) : _token(token) {}
+CPPToken CPPPreprocessor::internal_get_next_token() { g_next_token_calls++; static CPPFile f; static std::string s; static YYSTYPE y; return CPPToken(0, 0, 0, f, s, y); }
+static void vu_force_instantiation() { std::vector<CPPAttributeList::Attribute> a; std::vector<CPPAttributeList::Attribute> b(a); }
+//@extract src/cppparser/cppPreprocessor.cxx CPPPreprocessor::expand_manifest r15 "subst1=@ignores\.insert\(infile->_manifest\)@ignores.insert((const CPPManifest *)infile->_manifest)@"
 
 static CPPPreprocessor g_pp_obj;
 static CPPPreprocessor::InputFile g_outer[2];
@@ -66,5 +74,19 @@ void h_macro_under_expansion_is_ignored() {
     OBL(g_pp_obj._infile == before, "C15.push_expansion: a failed push leaves the input stack as it was");
   }
   OBL(g_pp_obj.should_ignore_manifest(other) == ignored_other_before, "C15.push_expansion: macros of enclosing expansions stay ignored, no other macro becomes ignored");
+  VU_REACHED();
+}
+
+// ---- the text a macro expands to is attributed to the place where the macro is USED (the file being read), not to the
+// file that defined the macro: whether a declaration is the user's own is decided by the file it stands in
+void h_expansion_is_attributed_to_the_use() {
+  CPPManifest *m = (CPPManifest *)vu_alloc(sizeof(CPPManifest));
+  m->_has_parameters = nondet_bool(); m->_num_parameters = 0; m->_variadic_param = -1;
+  m->_loc.file._source = CPPFile::S_system;            // the macro was defined in a system header ...
+  YYLTYPE use; use.file._source = CPPFile::S_local; use.first_line = nondet_int(); use.first_column = nondet_int();   // ... and is used in the user's file
+  g_pp_obj._infile = 0; g_connect_ok = true; g_next_token_calls = 0;
+  g_pp_obj.expand_manifest(m, use);
+  OBL(g_pp_obj._infile != 0 && g_pp_obj._infile->_file._source == CPPFile::S_local && g_pp_obj._infile->_line_number == use.first_line, "C04.expand_manifest: the expansion of a macro is read as part of the file (and line) that uses the macro, whatever file defined it");
+  OBL(g_next_token_calls == 1, "C04.expand_manifest: the next token is then read from the expansion");
   VU_REACHED();
 }
